@@ -19,6 +19,12 @@ func vc_msm(r *ge25519.Ge25519, heap *batchHeap, count int) {
 		args = append(args, vGetSc(&heap.scalars[i]))
 	}
 	vPut(r, vUFPt("msm"+vItoa(count), args...))
+	// the Bos-Coster routine works in place: the point and scalar arrays are scratch and hold unspecified
+	// values afterwards (state that a later chunk must not rely on)
+	for i := 0; i < count; i++ {
+		vClobberPoint(&heap.points[i], "clob"+vItoa(count)+"_"+vItoa(i))
+		vPut(&heap.scalars[i], vUFSc("clobberedScalar", uint64(count), uint64(i)))
+	}
 }
 
 func vCutBatch() {
